@@ -87,6 +87,13 @@ def view(t, depth=0):
             return view(t[3][0], depth + 1)
     if len(t) == 3 and t[0] == "field" and t[2] in ("0", "1") and _is(t[1], "slice::split_at", "slice::split_at_mut") and len(t[1][2]) == 2:
         k = _const(t[1][2][1])
+        if k is None and _is(t[1][2][1], "Ord::min", "cmp::min") and len(t[1][2][1][2]) == 2:
+            # `s.split_at(s.len().min(N))`: the first N bytes and the rest when s is long enough; a shorter s gives a short
+            # head, which the fixed-size conversion that follows rejects — on its success side the head is s[..N]
+            a_, b_ = t[1][2][1][2]
+            for x_, y_ in ((a_, b_), (b_, a_)):
+                if _const(x_) is not None and isinstance(y_, tuple) and len(y_) == 4 and y_[0] == "call" and y_[1].endswith("::len") and y_[2] and view(y_[2][0], depth + 1) == view(t[1][2][0], depth + 1):
+                    k = _const(x_)
         if k is not None:
             v = view(t[1][2][0], depth + 1)
             return _sub(v, 0, k) if t[2] == "0" else _sub(v, k, None)
